@@ -23,12 +23,14 @@ type vCall struct {
 	Status    uint8 // the status (symbolic)
 	Ctx       context.Context
 	Cancelled bool
+	Out, Err  string // what the command printed on stdout / stderr
 }
 
 var vCalls []vCall
 var vAllowOther = true // also explore non-status errors
 var vStdout string     // what a successful command "prints" (per call, symbolic when vOutLen > 0)
 var vOutLen = 0
+var vErrLen = 0 // bytes a command prints on stderr
 var vInExecute = 0
 
 func vExecute(e *executor.DefaultExecutor, ctx context.Context, job *executor.Job) ([]byte, error) {
@@ -46,6 +48,17 @@ func vExecute(e *executor.DefaultExecutor, ctx context.Context, job *executor.Jo
 			out[i] = b
 		}
 		job.Stdout.Write(out)
+		c.Out = string(out)
+	}
+	if vErrLen > 0 && job.Stderr != nil {
+		eb := make([]byte, vErrLen)
+		for i := range eb {
+			b := rt.Uint8("stderr." + vDigits[k] + "." + vDigits[i])
+			rt.Assume(rt.And(b != 0x1b, b != 0xc2))
+			eb[i] = b
+		}
+		job.Stderr.Write(eb)
+		c.Err = string(eb)
 	}
 	nk := 2
 	if vAllowOther {
